@@ -114,6 +114,24 @@ Proof.
   exact (intersection_correct pfx L R _ _ _ _ _ _ _ _ _ (laws w fl Hw) ba bb _ _ Wa Wb).
 Qed.
 
+(** Reachable states.  For any two histories of public mutating calls (over [L] resp. [R]; running
+    the same history twice gives two views of one map) and any two valid [view_at] positions, the
+    resulting views are well-formed operands — every reachable state is well-formed (C15,
+    [Common.reachable_wfm]) and [view_at] yields well-formed views ([SetOpsExtra.view_at_wf]).
+    Views derived from them by [find] / [left] / [right] / [split] are well-formed again
+    ([ViewsThm.v_find_spec], [v_side_spec]; C11), so the [view_wf] premise above is always met. *)
+Theorem C06_reachable (opsA : list (hop L)) (opsB : list (hop R)) qa qb va vb :
+  Forall (hop_ok w L) opsA -> Forall (hop_ok w R) opsB -> okp w qa -> okp w qb ->
+  t_view_at w fl L (root (hrun w fl L opsA)) qa = Some va ->
+  t_view_at w fl R (root (hrun w fl R opsB)) qb = Some vb ->
+  exists out, t_intersection w fl L R (v_tree va) (v_tree vb) = Some out /\
+              inter_spec pfx L R (kbits w) (v_entries pfx L va) (v_entries pfx R vb) out.
+Proof.
+  intros HA HB Hqa Hqb Ea Eb. apply C06_intersection_views.
+  - exact (view_at_wf pfx _ _ _ _ _ _ _ _ _ (laws w fl Hw) _ qa va (reachable_wfm w fl L Hw opsA HA) Hqa Ea).
+  - exact (view_at_wf pfx _ _ _ _ _ _ _ _ _ (laws w fl Hw) _ qb vb (reachable_wfm w fl R Hw opsB HB) Hqb Eb).
+Qed.
+
 End C06.
 
 (** Non-vacuity (w = 8).  Map A = {00/2 ↦ 1, 01/2 ↦ 2, 1/1 ↦ 3, 110/3 ↦ 4} over [nat] (node 0/1
@@ -151,3 +169,4 @@ Print Assumptions C06_intersection_mut.
 Print Assumptions C06_disjoint.
 Print Assumptions C06_disjoint_views.
 Print Assumptions C06_intersection_views.
+Print Assumptions C06_reachable.
